@@ -36,7 +36,8 @@ Theorem C10_cleanup_empties :
     res (cleanup LF (exec geom LF lvl) inner s) = Ok r ->
     ts (post (cleanup LF (exec geom LF lvl) inner s))
     = mkT (failed (ts (post (cleanup LF (exec geom LF lvl) inner s)))) [] false false
-          (skipreq (ts (post (cleanup LF (exec geom LF lvl) inner s)))).
+          (skipreq (ts (post (cleanup LF (exec geom LF lvl) inner s))))
+          (ood (ts (post (cleanup LF (exec geom LF lvl) inner s)))).
 Proof. exact cleanup_end. Qed.
 Print Assumptions C10_cleanup_empties.
 
